@@ -34,13 +34,21 @@ pub open spec fn is_window(mv: MemView, a: u64, length: usize, bytes: Seq<u8>) -
 /// an instruction graph as a decoder must deliver it: well formed (unit C15), entry and exit set
 pub open spec fn graph_ok(g: ControlFlowGraph) -> bool { g.cfg_wf() && g.entry is Some && g.exit is Some }
 
-/// THE ASSUMED CONTRACT of `translate_block` (what an `Ok` result looks like); `address` = the address it was asked for
+/// THE ASSUMED CONTRACT of `translate_block` (what an `Ok` result looks like); `address` = the address it was asked for:
+/// the first listed instruction (if any) is the one at `address`; every instruction graph is well formed with entry and
+/// exit set; the sizes stay within the translator's caps.  Nothing is assumed about the successors, the other
+/// instruction addresses, `address()` / `length()` of the result, or about the list being non-empty (the recovery code
+/// rejects an empty list itself).
 pub open spec fn result_ok(b: BlockTranslationResult, address: u64, capb: nat, capi: nat) -> bool {
-    &&& b.instructions@.len() > 0
-    &&& b.instructions@[0].0 == address
+    &&& (b.instructions@.len() > 0 ==> b.instructions@[0].0 == address)
     &&& forall|i: int| 0 <= i < b.instructions@.len() ==> graph_ok((#[trigger] b.instructions@[i]).1)
     &&& total_blocks(b.instructions@) <= capb
     &&& total_budget(b.instructions@) <= capi
+}
+
+/// a result as it is STORED by the discovery loop: the contract + at least one instruction
+pub open spec fn stored_ok(b: BlockTranslationResult, address: u64, capb: nat, capi: nat) -> bool {
+    result_ok(b, address, capb, capi) && b.instructions@.len() > 0
 }
 
 /// the result the recovery code itself builds for an address without (executable) bytes: one empty block
@@ -59,7 +67,7 @@ pub open spec fn empty_result(b: BlockTranslationResult, address: u64) -> bool {
 
 pub proof fn lemma_empty_result_ok(b: BlockTranslationResult, address: u64, capb: nat, capi: nat)
     requires empty_result(b, address), capb >= 1,
-    ensures result_ok(b, address, capb, capi),
+    ensures stored_ok(b, address, capb, capi),
 {
     let s = b.instructions@;
     assert(s.drop_last().len() == 0);
@@ -168,6 +176,17 @@ pub proof fn lemma_q_push(q: Seq<u64>, x: u64)
     assert(q.push(x)[q.len() as int] == x);
 }
 
+pub proof fn lemma_q_push_front(q: Seq<u64>, x: u64)
+    ensures q_sub(q, seq![x] + q), (seq![x] + q).contains(x),
+{
+    let q2 = seq![x] + q;
+    assert forall|a: u64| q.contains(a) implies #[trigger] q2.contains(a) by {
+        let i = choose|i: int| 0 <= i < q.len() && q[i] == a;
+        assert(q2[i + 1] == a);
+    }
+    assert(q2[0] == x);
+}
+
 pub proof fn lemma_q_pop(q: Seq<u64>, a: u64)
     requires q.len() > 0, q.contains(a), a != q[0],
     ensures q.subrange(1, q.len() as int).contains(a),
@@ -258,7 +277,7 @@ pub proof fn lemma_pending_insert(rs: Map<u64, BlockTranslationResult>, q: Seq<u
 
 /// every stored result satisfies the contract (for the address it is stored under)
 pub open spec fn results_ok(rs: Map<u64, BlockTranslationResult>, capb: nat, capi: nat) -> bool {
-    forall|k: u64| rs.contains_key(k) ==> result_ok(#[trigger] rs[k], k, capb, capi)
+    forall|k: u64| rs.contains_key(k) ==> stored_ok(#[trigger] rs[k], k, capb, capi)
 }
 
 pub open spec fn all_in(q: Seq<u64>, u: Set<u64>) -> bool { forall|i: int| 0 <= i < q.len() ==> u.contains(#[trigger] q[i]) }
